@@ -170,14 +170,18 @@ def main(argv):
     try:
         if hasattr(mod, "extract"):
             mod.extract(ctx)
-        lean = C.lean_check(pid, thorough=ctx.thorough)
-        if not C.DRIVER.exists():
-            C.log("skcdriver is not built:\n" + lean["log"])
-            # model executable missing: the correspondence cannot run
-            lean["ok"] = False
+        lean = C.lean_check(pid, thorough=ctx.thorough, own_tables=hasattr(mod, "extract"))
+        have_driver = bool(lean.get("driver_path"))
+        if have_driver:
+            ctx.driver.path = lean["driver_path"]
+        else:
+            C.log("skcdriver is not built:\n" + lean.get("driver_build_failed", lean["log"]))
+            lean["ok"] = False  # model executable missing: the correspondence cannot run
+        if lean.get("driver_build_failed") and have_driver:
+            C.log("NOTE: the shared model driver does not build on this tree (another property's table/model); using the last driver that linked")
         pool = mp.get_context("fork").Pool(min(16, os.cpu_count() or 4), initializer=_worker_init) if getattr(mod, "PARALLEL", True) else None
         cases = [c for c in C.corpus_cases(pid)] + mod.gen(ctx)
-        if C.DRIVER.exists():
+        if have_driver:
             findings, stats = evaluate(mod, ctx, cases, pool)
         else:
             findings, stats = [], {"evaluations": 0, "distinct_nontrivial": 0}
@@ -187,6 +191,7 @@ def main(argv):
 
         def search():
             sctx = C.Ctx(pid, "thorough", seed + 7919)
+            sctx.driver.path = ctx.driver.path
             fs, _ = evaluate(mod, sctx, (mod.search_gen(sctx) if hasattr(mod, "search_gen") else mod.gen(sctx)), pool)
             return fs
 
@@ -228,11 +233,18 @@ def main(argv):
         signal.alarm(0)
         if pool is not None:
             pool.terminate()
+        try:
+            os.unlink(C.LEAN / ".audit" / f"skcdriver.run{os.getpid()}")
+        except OSError:
+            pass
 
 
 def replay(pid, mod, path, seed):
     body = json.loads(open(path).read())
     ctx = C.Ctx(pid, "quick", seed)
+    good = C.LEAN / ".audit" / "skcdriver.good"
+    if not C.DRIVER.exists() and good.exists():
+        ctx.driver.path = str(good)
     if body.get("case") is None:
         lean = C.lean_check(pid)
         C.log("replay of a no-failing-input-found report; Lean status:", "ok" if lean["ok"] else lean["failed"])
